@@ -368,7 +368,7 @@ func TestC06_FakeTime(t *testing.T) {
 	if kit.Tier() == "thorough" {
 		maxKeys = 100
 	}
-	p := kit.Prop[C06Case]{ID: "C06", Name: "FakeTime", Quick: 12000, Thorough: 800000, Gen: genC06(maxKeys), Run: runC06(t)}
+	p := kit.Prop[C06Case]{ID: "C06", Name: "FakeTime", Quick: 40000, Thorough: 3000000, Gen: genC06(maxKeys), Run: runC06(t)}
 	p.Execute(t)
 }
 
